@@ -896,3 +896,348 @@ pub fn state_from_cells_styled(c: &[u8; 64], gold: bool, mn: usize, style: u8) -
         Err(p) => Err(p),
     }
 }
+
+// ---------------------------------------------------------------------------------------
+// The situation grid: one root per (rule clause, square, direction, colour), enumerated - not
+// sampled.  Every clause of the rules that talks about a neighbourhood (who may push, who may
+// complete a push, what may be pulled, who is frozen / supported) is realised around EVERY square
+// of the board, with the deciding pieces on every combination of neighbour squares, so that a
+// fault confined to one square, one file, one direction or one colour cannot hide behind the
+// sampling of the random drivers.  The specification judges what the engine does there; this
+// only supplies reach.
+
+fn mine(t: u8, me: u8) -> u8 {
+    t + 6 * me
+}
+
+fn count_of(c: &[u8; 64], v: u8) -> usize {
+    c.iter().filter(|&&x| x == v).count()
+}
+
+/// a piece of colour `me` taken from `prefs` (types) whose complement is not yet exhausted and which,
+/// if a rabbit, does not stand on its goal rank
+fn put_some(c: &mut [u8; 64], i: usize, me: u8, prefs: &[u8]) -> bool {
+    for &t in prefs {
+        let v = mine(t, me);
+        if count_of(c, v) >= COMPLEMENT[t as usize] {
+            continue;
+        }
+        if t == 1 && ((me == 0 && i < 8) || (me == 1 && i >= 56)) {
+            continue;
+        }
+        c[i] = v;
+        return true;
+    }
+    false
+}
+
+fn far_rabbits(c: &mut [u8; 64], involved: &[usize]) -> bool {
+    for (v, order) in [(1u8, [49usize, 54, 51, 52, 41, 46, 33, 38, 25, 30, 50, 53]), (7u8, [9usize, 14, 11, 12, 17, 22, 25, 30, 33, 38, 10, 13])] {
+        if c.contains(&v) {
+            continue;
+        }
+        let mut done = false;
+        for &i in order.iter() {
+            let far = involved.iter().all(|&j| (i / 8).abs_diff(j / 8) + (i % 8).abs_diff(j % 8) >= 2);
+            if c[i] == 0 && far && !TRAPS.contains(&i) {
+                c[i] = v;
+                done = true;
+                break;
+            }
+        }
+        if !done {
+            return false;
+        }
+    }
+    true
+}
+
+pub type GridItem = ([u8; 64], bool, usize, Direction);
+
+fn grid_emit(out: &mut Vec<GridItem>, c: &[u8; 64], involved: &[usize], gold: bool, sq: usize, d: Direction) {
+    let mut c = *c;
+    if !far_rabbits(&mut c, involved) {
+        return;
+    }
+    if (0..8).any(|i| c[i] == 1) || (56..64).any(|i| c[i] == 7) {
+        return;
+    }
+    // a piece of the situation standing on a trap gets a friend beside it (outside the situation's squares)
+    for &t in TRAPS.iter() {
+        if c[t] != 0 && !has_friend(&c, t) {
+            let me = if c[t] <= 6 { 0 } else { 1 };
+            let free: Vec<usize> = neighbours(t).into_iter().filter(|n| c[*n] == 0 && !involved.contains(n)).collect();
+            if free.is_empty() || !put_some(&mut c, free[0], me, &[2, 3, 4, 1]) {
+                return;
+            }
+        }
+    }
+    if legal_position(&c) {
+        out.push((c, gold, sq, d));
+    }
+}
+
+/// the status variants of a piece of the mover on `at`: as it stands; frozen by an enemy elephant on
+/// each free neighbour; frozen and supported by a friend on one further neighbour
+fn grid_status_variants(out: &mut Vec<GridItem>, c: &[u8; 64], at: usize, me: u8, taken: &[usize], gold: bool, sq: usize, d: Direction) {
+    let mut inv: Vec<usize> = taken.to_vec();
+    grid_emit(out, c, &inv, gold, sq, d);
+    for f in neighbours(at) {
+        if taken.contains(&f) || c[f] != 0 {
+            continue;
+        }
+        let mut c1 = *c;
+        c1[f] = mine(6, 1 - me);
+        inv.push(f);
+        grid_emit(out, &c1, &inv, gold, sq, d);
+        if let Some(g) = neighbours(at).into_iter().find(|g| !taken.contains(g) && *g != f && c1[*g] == 0) {
+            let mut c2 = c1;
+            if put_some(&mut c2, g, me, &[2, 3, 1, 4]) {
+                inv.push(g);
+                grid_emit(out, &c2, &inv, gold, sq, d);
+                inv.pop();
+            }
+        }
+        inv.pop();
+    }
+}
+
+/// kind 0: push starts and their completions; kind 1: pull leads; kind 2: own steps (root lists only).
+/// `rot` varies the piece types between runs.
+pub fn grid_positions(kind: usize, rot: usize) -> Vec<GridItem> {
+    let dirs = [Direction::Up, Direction::Right, Direction::Down, Direction::Left];
+    let mut out: Vec<GridItem> = Vec::new();
+    for me in 0..2u8 {
+        let gold = me == 0;
+        for s in 0..64usize {
+            for (di, &d) in dirs.iter().enumerate() {
+                let dest = match crate::drivers::dest_of(s, d) {
+                    Some(x) => x,
+                    None => continue,
+                };
+                let nbrs: Vec<usize> = neighbours(s).into_iter().filter(|&n| n != dest).collect();
+                match kind {
+                    0 => {
+                        // the victim's type rotates with the square; the pusher is one step stronger
+                        let tv = 1 + ((s + di + rot) % 3) as u8;
+                        for &n1 in nbrs.iter() {
+                            let mut c = [0u8; 64];
+                            c[s] = mine(tv, 1 - me);
+                            c[n1] = mine(tv + 1, me);
+                            // the pusher alone, in every status
+                            grid_status_variants(&mut out, &c, n1, me, &[s, dest, n1], gold, s, d);
+                            // a second piece of the mover next to the victim: stronger, equal, weaker, in every status
+                            for &n2 in nbrs.iter() {
+                                if n2 == n1 {
+                                    continue;
+                                }
+                                for rel in 0..3 {
+                                    let t2 = match rel {
+                                        0 => tv + 1 + ((s + rot) % 2) as u8,
+                                        1 => tv,
+                                        _ => tv - 1,
+                                    };
+                                    if t2 == 0 {
+                                        continue;
+                                    }
+                                    let mut c2 = c;
+                                    if !put_some(&mut c2, n2, me, &[t2]) {
+                                        continue;
+                                    }
+                                    grid_status_variants(&mut out, &c2, n2, me, &[s, dest, n1, n2], gold, s, d);
+                                }
+                            }
+                        }
+                    }
+                    1 => {
+                        // a non-rabbit piece of the mover on s steps to dest; an enemy piece on a neighbour of s
+                        // that is weaker / equal / stronger; the mover's piece alone or supported
+                        let tp = 2 + ((s + di + rot) % 4) as u8;
+                        for &n in nbrs.iter() {
+                            for rel in 0..3 {
+                                let te = match rel {
+                                    0 => 1 + ((s + rot) % (tp as usize - 1)) as u8,
+                                    1 => tp,
+                                    _ => tp + 1,
+                                };
+                                let mut c = [0u8; 64];
+                                c[s] = mine(tp, me);
+                                c[n] = mine(te, 1 - me);
+                                grid_emit(&mut out, &c, &[s, dest, n], gold, s, d);
+                                // supported by a friend on another neighbour (matters when the enemy is stronger)
+                                for &g in nbrs.iter() {
+                                    if g == n {
+                                        continue;
+                                    }
+                                    let mut c1 = c;
+                                    if put_some(&mut c1, g, me, &[2, 3, 1]) {
+                                        grid_emit(&mut out, &c1, &[s, dest, n, g], gold, s, d);
+                                    }
+                                    // a second enemy candidate for the pull
+                                    let mut c2 = c;
+                                    if put_some(&mut c2, g, 1 - me, &[1, 2]) {
+                                        grid_emit(&mut out, &c2, &[s, dest, n, g], gold, s, d);
+                                    }
+                                }
+                            }
+                        }
+                    }
+                    _ => {
+                        // own steps: a rabbit and a non-rabbit piece on s, in every status, and next to an enemy
+                        // piece of its own type
+                        for t in [1u8, 2 + ((s + di + rot) % 4) as u8] {
+                            let mut c = [0u8; 64];
+                            if !put_some(&mut c, s, me, &[t]) {
+                                continue;
+                            }
+                            grid_status_variants(&mut out, &c, s, me, &[s, dest], gold, s, d);
+                            for &n in nbrs.iter() {
+                                let mut c1 = c;
+                                c1[n] = mine(t, 1 - me);
+                                grid_emit(&mut out, &c1, &[s, dest, n], gold, s, d);
+                            }
+                        }
+                    }
+                }
+            }
+        }
+    }
+    out
+}
+
+// ---------------------------------------------------------------------------------------
+// Extremal positions: legal positions pushed by local search towards the LARGEST quantities a
+// list-building routine has to cope with - the number of actions of the mover, the number of its
+// own steps, the number of enemy pieces it can push in one direction, the number of different
+// pieces that can push.  Sizes that random play practically never reaches (it peaks near 50
+// actions; the maximum is above 100) are where capacity assumptions live.
+
+fn strength(v: u8) -> u8 {
+    if v == 0 { 0 } else if v <= 6 { v } else { v - 6 }
+}
+
+fn frozen_here(c: &[u8; 64], i: usize) -> bool {
+    let o = owner(c[i]);
+    let nb = neighbours(i);
+    nb.iter().any(|&j| c[j] != 0 && owner(c[j]) != o && strength(c[j]) > strength(c[i])) && !nb.iter().any(|&j| c[j] != 0 && owner(c[j]) == o)
+}
+
+/// (own steps, pushes per direction [n, e, s, w], number of pushers) of the side `gold`; a cheap estimate used
+/// only to steer the search (the specification, not this, judges the engine)
+fn width(c: &[u8; 64], gold: bool) -> (usize, [usize; 4], usize) {
+    let me = if gold { 1 } else { 2 };
+    let mut own = 0;
+    let mut push = [0usize; 4];
+    let mut pushers = 0;
+    for i in 0..64 {
+        if c[i] == 0 {
+            continue;
+        }
+        if owner(c[i]) == me {
+            if frozen_here(c, i) {
+                continue;
+            }
+            let nb = neighbours(i);
+            for &j in nb.iter() {
+                if c[j] == 0 {
+                    let backward = (c[i] == 1 && j == i + 8) || (c[i] == 7 && j + 8 == i);
+                    if !backward {
+                        own += 1;
+                    }
+                }
+            }
+            if nb.iter().any(|&j| c[j] != 0 && owner(c[j]) != me && strength(c[j]) < strength(c[i])) {
+                pushers += 1;
+            }
+        } else {
+            let pushable = neighbours(i).iter().any(|&j| c[j] != 0 && owner(c[j]) == me && strength(c[j]) > strength(c[i]) && !frozen_here(c, j));
+            if pushable {
+                let (r, f) = (i / 8, i % 8);
+                if r > 0 && c[i - 8] == 0 { push[0] += 1; }
+                if f < 7 && c[i + 1] == 0 { push[1] += 1; }
+                if r < 7 && c[i + 8] == 0 { push[2] += 1; }
+                if f > 0 && c[i - 1] == 0 { push[3] += 1; }
+            }
+        }
+    }
+    (own, push, pushers)
+}
+
+fn wide_ok(c: &[u8; 64]) -> bool {
+    legal_position(c) && !(0..8).any(|i| c[i] == 1) && !(56..64).any(|i| c[i] == 7) && c.contains(&1) && c.contains(&7)
+}
+
+/// objective 0: all actions; 1: own steps; 2..5: pushes in one direction (n, e, s, w); 6: number of pushers
+pub fn wide_position(rng: &mut Rng, objective: usize, gold: bool) -> [u8; 64] {
+    let score = |c: &[u8; 64]| -> usize {
+        let (own, push, pushers) = width(c, gold);
+        match objective {
+            0 => own + push.iter().sum::<usize>(),
+            1 => own,
+            2..=5 => 8 * push[objective - 2] + own / 4,
+            _ => 8 * pushers + own / 4,
+        }
+    };
+    // start: the mover's whole army and a random part of the other one, scattered
+    let mut c = [0u8; 64];
+    let mut pieces: Vec<u8> = Vec::new();
+    let (m, e) = if gold { (0u8, 6u8) } else { (6u8, 0u8) };
+    for t in 1..=6u8 {
+        for _ in 0..COMPLEMENT[t as usize] {
+            pieces.push(t + m);
+        }
+    }
+    let enemy_n = if objective == 1 { rng.below(5) } else { 6 + rng.below(11) };
+    let mut en: Vec<u8> = Vec::new();
+    for t in 1..=6u8 {
+        for _ in 0..COMPLEMENT[t as usize] {
+            en.push(t + e);
+        }
+    }
+    // weak enemy pieces first (they are the pushable ones), one rabbit guaranteed
+    for k in 0..enemy_n.min(en.len()) {
+        pieces.push(en[k]);
+    }
+    for &v in pieces.iter() {
+        for _ in 0..200 {
+            let i = rng.below(64);
+            if c[i] == 0 && !TRAPS.contains(&i) && !((v == 1 && i < 8) || (v == 7 && i >= 56)) {
+                c[i] = v;
+                break;
+            }
+        }
+    }
+    if !wide_ok(&c) {
+        return c;
+    }
+    let mut cur = score(&c);
+    let mut best = cur;
+    let mut best_c = c;
+    let iterations = if objective == 0 { 6000 } else { 400 + rng.below(600) };
+    for k in 0..iterations {
+        // annealing: the tolerance for a worse neighbour shrinks from 2 to 0.05
+        let temp = 2.0 * (0.025f64).powf(k as f64 / iterations as f64);
+        let occupied: Vec<usize> = (0..64).filter(|&i| c[i] != 0).collect();
+        let from = occupied[rng.below(occupied.len())];
+        let to = rng.below(64);
+        if c[to] != 0 {
+            continue;
+        }
+        let mut d = c;
+        d[to] = d[from];
+        d[from] = 0;
+        if !wide_ok(&d) {
+            continue;
+        }
+        let s = score(&d);
+        if s >= cur || rng.chance(((s as f64 - cur as f64) / temp).exp()) {
+            c = d;
+            cur = s;
+            if cur > best {
+                best = cur;
+                best_c = c;
+            }
+        }
+    }
+    best_c
+}
